@@ -4,13 +4,21 @@ Plain tensors carry the free 'segment' monoid (item = interval [first,last], a o
 adjacent intervals, anything else poisons) so that any wrong index schedule, wrong order or
 dropped item is visible exactly.  LieTensor variants use exactly representable group elements
 (quaternion group Q8, integer translations, power-of-two scales).
+
+Every judged call is embedded in a short history on its objects (the clause 'the out-of-place variants leave
+the input untouched and the in-place ones overwrite it'): the result of an out-of-place call is scanned again in
+place / written to and the input must keep its values (and the other way round), the input is modified in place
+and the call repeated, in-place calls on views must leave the rest of the buffer alone.  Every dimension is
+addressed by its non-negative and by its negative index, through every public call form.
 """
 import itertools
 from ..common import *
 
 RULE = ('plain tensors: every L in the tier range (exhaustive for the index schedule), segment-monoid '
         'items; a case is non-trivial when L >= 2; distinct = distinct (variant, shape, dim, order); '
-        'LieTensor cases: Q8 x integer translations x power-of-two scales, distinct (type, L, order)')
+        'LieTensor cases: Q8 x integer translations x power-of-two scales on batch shapes of rank 1..3, every batch '
+        'dim by its non-negative and negative index, distinct (type, batch shape, dim, order, call, items); '
+        'each case is a history: call, then in-place scan of / writes to the result, then the call repeated on the modified input')
 
 
 def seg_ops(torch, order='right'):
@@ -42,18 +50,42 @@ class ShapeError(Exception):
 
 
 def relayout(torch, x, layout):
-    """the same values and shape as x in another memory layout: 'T' = non-contiguous (permuted) view of a contiguous
-    buffer, 'S' = every second element of a larger buffer along the pair axis' neighbour; 'C' = contiguous"""
+    """the same values and shape as x in another memory layout.  Returns (view, buffer, viewfn) with
+    view = viewfn(buffer).  'C' = contiguous, 'T' = non-contiguous (permuted) view of a contiguous buffer,
+    'S' = every second element of a larger buffer, 'P' = the interior of a buffer padded by one element on
+    both sides of every dimension but the last (storage offset, every stride non-contiguous)"""
     if layout == 'T' and x.dim() >= 3:
         perm = list(range(x.dim() - 1))
         perm = perm[1:] + perm[:1] + [x.dim() - 1]
         inv = [perm.index(k) for k in range(x.dim())]
-        return x.permute(perm).contiguous().permute(inv)
+        buf = x.permute(perm).contiguous()
+        vf = lambda b: b.permute(inv)
+        return vf(buf), buf, vf
     if layout == 'S' and x.dim() >= 2 and x.shape[0] > 0:
         buf = torch.full((2 * x.shape[0],) + tuple(x.shape[1:]), -7, dtype=x.dtype)
         buf[::2] = x
-        return buf[::2]
-    return x.clone()
+        vf = lambda b: b[::2]
+        return vf(buf), buf, vf
+    if layout == 'P' and x.dim() >= 2:
+        buf = torch.full(tuple(s + 2 for s in x.shape[:-1]) + (x.shape[-1],), -7, dtype=x.dtype)
+        sl = tuple(slice(1, s + 1) for s in x.shape[:-1])
+        buf[sl] = x
+        vf = lambda b: b[sl]
+        return vf(buf), buf, vf
+    buf = x.clone()
+    vf = lambda b: b
+    return buf, buf, vf
+
+
+def outside(buf, vf):
+    """the part of the buffer that does not belong to the view (the view zeroed)"""
+    a = buf.clone()
+    vf(a).zero_()
+    return a
+
+
+LAYOUTS = {'C': 'contiguous', 'T': 'non-contiguous (permuted view)', 'S': 'strided slice of a larger buffer',
+           'P': 'interior view of a padded buffer', 'E': 'expanded (stride 0) along a non-scan dimension'}
 
 
 def deviations(t, base, dim, left=False):
@@ -77,18 +109,491 @@ def deviations(t, base, dim, left=False):
     return res
 
 
-def seqfold(items, op):
-    out, acc = [], None
-    for x in items:
-        acc = x if acc is None else op(acc, x)
-        out.append(acc)
-    return out
-
-
 def devlit(d):
     if d is None:
         return 'None'
     return 'Some ' + coq_list('(%d, (%d, %d))%%Z' % t for t in d)
+
+
+KEY_FOLD = 'cumops-differs-from-fold'
+KEY_ALIAS = 'cum-result-aliases-input'
+KEY_MUT = 'cum-mutates-input'
+KEY_INPL = 'cum-inplace-not-overwritten'
+KEY_HIST = 'cum-depends-on-history'
+
+
+def plain_exec(pp, torch, c, history=True):
+    """plain_exec_ with every unexpected exception of a history step (e.g. a write to a result that turns out to be
+    an expanded view of the input) turned into a reported failure of that input"""
+    res = dict(devs=None, same_in=None, same_res=None, fail=None)
+    try:
+        return plain_exec_(pp, torch, c, history, res)
+    except Exception as e:
+        res['fail'] = res['fail'] or (KEY_HIST, 'a step of the history around %s(x, %d, ops) on a %s tensor raises %s: %s'
+                                      % (c.get('variant', 'cumops'), c['dim'], LAYOUTS[c.get('layout', 'C')], type(e).__name__, str(e)[:200]))
+        return res
+
+
+def plain_exec_(pp, torch, c, history, res):
+    """one plain-tensor case (segment monoid) on the implementation, judged by the property's own statement.
+    Returns dict(devs, same_in, same_res) for the tie and fail = (key, text) | None"""
+    sh = tuple(c['shape'])
+    r = len(sh)
+    dim = c['dim']
+    pdim = dim if dim >= 0 else dim + r + 1          # negative dims count from the pair axis
+    order = c.get('order', 'right')
+    left = order == 'left'
+    variant = c.get('variant', 'cumops')
+    inplace = variant.endswith('_')
+    layout = c.get('layout', 'C')
+    ops = seg_ops(torch, order)
+    if layout == 'E':
+        e = c['edim']
+        sh1 = tuple(1 if k == e else s for k, s in enumerate(sh))
+        x1, b1 = seg_tensor(torch, sh1, pdim, left)
+        base = b1.expand(sh)
+        buf = x1
+        vf = lambda b: b.expand(sh + (2,))
+        xin = vf(buf)
+    else:
+        x, base = seg_tensor(torch, sh, pdim, left)
+        xin, buf, vf = relayout(torch, x, layout)
+    lay = LAYOUTS[layout]
+    x0 = xin.clone()
+    buf0 = buf.clone()
+    fn = getattr(pp, variant)
+    call = '%s(x, %d, ops)' % (variant, dim)
+    try:
+        y = fn(xin, dim, ops)
+    except Exception as e:
+        res['fail'] = (KEY_FOLD, '%s raises %s: %s' % (call, type(e).__name__, str(e)[:200]))
+        return res
+    try:
+        devs = deviations(y, base, pdim, left)
+    except ShapeError as e:
+        res['fail'] = (KEY_FOLD, '%s: %s' % (call, e))
+        return res
+    res.update(devs=devs, same_in=torch.equal(xin, x0), same_res=torch.equal(xin, y))
+    bad = [(b, d[:3]) for b, d in devs if d]
+    if bad:
+        res['fail'] = (KEY_FOLD, '%s: positions differing from the fold (fibre base, [(i, first, last)]): %s' % (call, bad[:2]))
+        return res
+    if not y.numel():
+        return res
+    if inplace:
+        if not torch.equal(xin, y):
+            res['fail'] = (KEY_INPL, 'the in-place variant returned the fold but did not overwrite its %s input with it' % lay)
+        elif not torch.equal(outside(buf, vf), outside(buf0, vf)):
+            res['fail'] = (KEY_MUT, 'the in-place variant on a view (%s) wrote outside the view' % lay)
+        return res
+    if not torch.equal(xin, x0) or not torch.equal(buf, buf0):
+        res['fail'] = (KEY_MUT, 'the out-of-place variant changed its %s input' % lay)
+        return res
+    # ---- histories on the two objects
+    ysave = y.clone()
+    try:
+        y.copy_(ysave)                    # a fresh tensor can be written to
+    except RuntimeError as e:
+        res['fail'] = (KEY_ALIAS, 'y = %s on a %s input: y cannot be written to (%s): the result is not a fresh tensor' % (call, lay, str(e)[:120]))
+        return res
+    # (a) the same input, addressed by the other index of the same dimension
+    odim = pdim - r - 1 if dim >= 0 else pdim
+    try:
+        y2 = fn(xin, odim, ops)
+        if tuple(y2.shape) != tuple(ysave.shape) or not torch.equal(y2, ysave):
+            res['fail'] = (KEY_FOLD, 'dim=%d and dim=%d name the same dimension of a rank-%d tensor but %s gives different results'
+                           % (dim, odim, r + 1, variant))
+            return res
+    except Exception as e:
+        res['fail'] = (KEY_FOLD, '%s(x, %d, ops) raises %s: %s (dim=%d works)' % (variant, odim, type(e).__name__, str(e)[:160], dim))
+        return res
+    if not torch.equal(xin, x0):
+        res['fail'] = (KEY_MUT, 'the second out-of-place call changed its %s input' % lay)
+        return res
+    # (b) writing to the input afterwards must not reach the result
+    if layout != 'E':
+        xin.add_(3)
+        if not torch.equal(y, ysave):
+            res['fail'] = (KEY_ALIAS, 'y = %s; x.add_(3) changed y: the result shares memory with the input' % call)
+            return res
+        xin.copy_(x0)
+    if not history:
+        y.fill_(-5)
+        if not torch.equal(xin, x0):
+            res['fail'] = (KEY_ALIAS, 'y = %s; y.fill_(-5) changed x: the result shares memory with the input' % call)
+        return res
+    # (c) the result is scanned in place (along every dimension in turn): the input keeps its values and the
+    #     result is what the same call gives on a fresh copy
+    for d2 in sorted({pdim, (pdim + 1) % r}):
+        if sh[d2] == 0:
+            continue
+        fresh = ysave.clone()
+        try:
+            pp.cumops_(fresh, d2, ops)
+            pp.cumops_(y, d2, ops)
+        except Exception as e:
+            res['fail'] = (KEY_FOLD, 'y = %s; cumops_(y, %d, ops) raises %s: %s' % (call, d2, type(e).__name__, str(e)[:160]))
+            return res
+        if not torch.equal(xin, x0):
+            res['fail'] = (KEY_ALIAS, 'y = %s; cumops_(y, %d, ops) overwrote x: the result of the out-of-place call is (a view of) its input' % (call, d2))
+            return res
+        if not torch.equal(y, fresh):
+            res['fail'] = (KEY_HIST, 'y = %s; cumops_(y, %d, ops) differs from cumops_ on a fresh copy of y' % (call, d2))
+            return res
+        y.copy_(ysave)
+    y.fill_(-5)
+    if not torch.equal(xin, x0):
+        res['fail'] = (KEY_ALIAS, 'y = %s; y.fill_(-5) changed x: the result shares memory with the input' % call)
+        return res
+    # (d) the input is modified in place (items reversed) and the call repeated on the same object with the
+    #     other order: position i must hold the ordered product of the new first i items
+    if layout != 'E':
+        L = sh[pdim]
+        xin.copy_(x0.flip(pdim))
+        oorder = 'left' if order == 'right' else 'right'
+        base3 = base - (L - 1) if left else base + (L - 1)
+        what = '%s; x.copy_(x.flip(%d)); %s(x, %d, ops of the %s order)' % (call, pdim, variant, dim, oorder)
+        try:
+            y3 = fn(xin, dim, seg_ops(torch, oorder))
+            bad = [(b, d[:3]) for b, d in deviations(y3, base3, pdim, not left) if d]
+        except Exception as e:
+            res['fail'] = (KEY_HIST, '%s raises %s: %s' % (what, type(e).__name__, str(e)[:160]))
+            return res
+        if bad:
+            res['fail'] = (KEY_HIST, '%s: the repeated call on the modified input differs from the fold of the new values: %s' % (what, bad[:2]))
+            return res
+    return res
+
+
+# ------------------------------------------------------------------------------------------------
+Q8 = [(0, 0, 0, 1), (1, 0, 0, 0), (0, 1, 0, 0), (0, 0, 1, 0), (0, 0, 0, -1), (-1, 0, 0, 0), (0, -1, 0, 0), (0, 0, -1, 0)]
+GID = {'SO3': 0, 'SE3': 1, 'RxSO3': 2, 'Sim3': 3}
+WIDTH = {'SO3': 4, 'SE3': 7, 'RxSO3': 5, 'Sim3': 8}
+LIE_FNS = ['cumprod', 'cummul', 'cumops', 'cumprod_', 'cummul_', 'cumops_']
+LIE_FORMS = ['function', 'method', 'method-positional', 'function-kw', 'function-positional', 'ltype', 'default', 'method-default']
+
+
+def lie_items(rng, ltype, n):
+    items = []
+    for idx in range(n):
+        q = list(rng.choice(Q8))
+        if n >= 2 and idx < 2:
+            q = list([(1, 0, 0, 0), (0, 1, 0, 0)][idx])  # i and j do not commute: the order is observable
+        t = [rng.randint(-3, 3) for _ in range(3)]
+        s = [rng.choice([0.5, 1.0, 2.0])]
+        if idx >= 2 and rng.random() < 0.15:             # the identity element mixed with generic ones
+            q, t, s = [0, 0, 0, 1], [0, 0, 0], [1.0]
+        if ltype == 'SO3':
+            items.append(q)
+        elif ltype == 'SE3':
+            items.append(t + q)
+        elif ltype == 'RxSO3':
+            items.append(q + s)
+        else:
+            items.append(t + q + s)
+    return items
+
+
+def lie_rows(rng, ltype, bshape, k):
+    """items for a batch of shape bshape (flat, C order): every fibre along k starts with two non-commuting items"""
+    import math
+    L = bshape[k]
+    inner = int(math.prod(bshape[k + 1:]))
+    outer = int(math.prod(bshape[:k]))
+    rows = [None] * (outer * L * inner)
+    for o in range(outer):
+        for j in range(inner):
+            for i, it in enumerate(lie_items(rng, ltype, L)):
+                rows[(o * L + i) * inner + j] = it
+    return rows
+
+
+def fibres(bshape, k):
+    """flat (C order) indices of the fibres of a batch along axis k"""
+    import math
+    L = bshape[k]
+    inner = int(math.prod(bshape[k + 1:]))
+    outer = int(math.prod(bshape[:k]))
+    return [[(o * L + i) * inner + j for i in range(L)] for o in range(outer) for j in range(inner)]
+
+
+# exact group products (written from the definitions: unit quaternion (x, y, z, w), translation, scale)
+def qmul(a, b):
+    ax, ay, az, aw = a
+    bx, by, bz, bw = b
+    return [aw * bx + ax * bw + ay * bz - az * by,
+            aw * by - ax * bz + ay * bw + az * bx,
+            aw * bz + ax * by - ay * bx + az * bw,
+            aw * bw - ax * bx - ay * by - az * bz]
+
+
+def cross(u, v):
+    return [u[1] * v[2] - u[2] * v[1], u[2] * v[0] - u[0] * v[2], u[0] * v[1] - u[1] * v[0]]
+
+
+def qrot(q, v):
+    u, w = q[:3], q[3]
+    c1 = cross(u, v)
+    c2 = cross(u, c1)
+    return [v[i] + 2 * w * c1[i] + 2 * c2[i] for i in range(3)]
+
+
+def gmul(lt, a, b):
+    """a o b of two items with exact (Fraction) coordinates"""
+    if lt == 'SO3':
+        return qmul(a, b)
+    if lt == 'RxSO3':
+        return qmul(a[:4], b[:4]) + [a[4] * b[4]]
+    if lt == 'SE3':
+        r = qrot(a[3:7], b[:3])
+        return [a[i] + r[i] for i in range(3)] + qmul(a[3:7], b[3:7])
+    r = qrot(a[3:7], b[:3])
+    return [a[i] + a[7] * r[i] for i in range(3)] + qmul(a[3:7], b[3:7]) + [a[7] * b[7]]
+
+
+def fold_rows(lt, rows, bshape, k, left):
+    """ordered products along axis k of a batch given as flat rows (C order): position i holds
+    x_i o ... o x_1 (left) or x_1 o ... o x_i (right)"""
+    import math
+    inner = int(math.prod(bshape[k + 1:]))
+    L = bshape[k]
+    out = list(rows)
+    for f in range(len(rows)):
+        if (f // inner) % L > 0:
+            prev = out[f - inner]
+            out[f] = gmul(lt, rows[f], prev) if left else gmul(lt, prev, rows[f])
+    return out
+
+
+def frows(t, w):
+    return [[Fraction(v) for v in row] for row in t.reshape(-1, w).tolist()]
+
+
+def lie_call(pp, x, fn, form, dim, left, mulop='@'):
+    """the public call forms of the six functions"""
+    if fn.startswith('cumops'):
+        if mulop == '@':
+            ops = (lambda a, b: b @ a) if left else (lambda a, b: a @ b)
+        else:
+            ops = (lambda a, b: b * a) if left else (lambda a, b: a * b)
+        if form == 'method':
+            return getattr(x, fn)(dim=dim, ops=ops)
+        if form in ('method-positional', 'method-default'):
+            return getattr(x, fn)(dim, ops)
+        if form == 'function-kw':
+            return getattr(pp, fn)(input=x, dim=dim, ops=ops)
+        if form == 'ltype':
+            return getattr(x.ltype, fn)(x, dim, ops)
+        return getattr(pp, fn)(x, dim, ops)
+    if form == 'method':
+        return getattr(x, fn)(dim=dim, left=left)
+    if form == 'method-positional':
+        return getattr(x, fn)(dim, left)
+    if form == 'function-kw':
+        return getattr(pp, fn)(input=x, dim=dim, left=left)
+    if form == 'function-positional':
+        return getattr(pp, fn)(x, dim, left)
+    if form == 'ltype':
+        return getattr(x.ltype, fn)(x, dim, left)
+    if form == 'default' and left:
+        return getattr(pp, fn)(x, dim)
+    if form == 'method-default' and left:
+        return getattr(x, fn)(dim)
+    return getattr(pp, fn)(x, dim, left=left)
+
+
+def first_diff(got, exp, bshape):
+    import numpy as np
+    for f, (g, e) in enumerate(zip(got, exp)):
+        if g != e:
+            return 'batch index %s: got %s, ordered product %s' % (list(map(int, np.unravel_index(f, bshape))), [float(v) for v in g], [float(v) for v in e])
+    return None
+
+
+def lie_exec(pp, torch, c):
+    res = dict(calls=[], fail=None)
+    try:
+        return lie_exec_(pp, torch, c, res)
+    except Exception as e:
+        res['fail'] = res['fail'] or (KEY_HIST, 'a step of the history around %s%s.%s(dim=%s) raises %s: %s'
+                                      % (c['ltype'], c.get('bshape'), c['fn'], c.get('dim', 0), type(e).__name__, str(e)[:200]))
+        return res
+
+
+def lie_exec_(pp, torch, c, res):
+    """one LieTensor history on the implementation, judged by exact sequential products.
+    Returns dict(calls=[(k, left, rows_in, rows_out | None | 'shape')] for the tie, fail=(key, text) | None)"""
+    lt, left, fn, form = c['ltype'], c['left'], c['fn'], c.get('form', 'function')
+    items = c['items']
+    bshape = tuple(c.get('bshape', [len(items)]))
+    dim = c.get('dim', 0)
+    k = dim if dim >= 0 else dim + len(bshape) + 1
+    w = WIDTH[lt]
+    layout = c.get('layout', 'C')
+    mulop = c.get('mulop', '@')
+    inplace = fn.endswith('_')
+    lay = LAYOUTS[layout]
+    rows0 = [[Fraction(v) for v in r] for r in items]
+    t = torch.tensor(items, dtype=torch.float64).reshape(bshape + (w,))
+    view, buf, vf = relayout(torch, t, layout)
+    x = pp.LieTensor(view, ltype=getattr(pp, lt + '_type'))
+    x0 = x.tensor().clone()
+    buf0 = buf.clone()
+    call = '%s%s.%s [%s form](dim=%d, left=%s)' % (lt, list(bshape), fn, form, dim, left)
+
+    def judged(y, rows_in, kk, lf, what):
+        """records the call for the tie and compares with the ordered products"""
+        if not hasattr(y, 'ltype') or y.ltype != x.ltype or tuple(y.shape) != bshape + (w,):
+            res['calls'].append((kk, lf, rows_in, 'shape'))
+            return (KEY_FOLD, '%s returns %s of shape %s, expected a %s LieTensor of shape %s'
+                    % (what, getattr(getattr(y, 'ltype', None), '__class__', type(y)).__name__, list(getattr(y, 'shape', [])), lt, list(bshape + (w,))))
+        got = frows(y.tensor(), w)
+        res['calls'].append((kk, lf, rows_in, got))
+        d = first_diff(got, fold_rows(lt, rows_in, bshape, kk, lf), bshape)
+        return (KEY_FOLD, '%s is not the ordered product along batch dimension %d: %s' % (what, kk, d)) if d else None
+
+    try:
+        y = lie_call(pp, x, fn, form, dim, left, mulop)
+    except Exception as e:
+        res['calls'].append((k, left, rows0, None))
+        res['fail'] = (KEY_FOLD, '%s raises %s: %s' % (call, type(e).__name__, str(e)[:200]))
+        return res
+    res['fail'] = judged(y, rows0, k, left, call)
+    if res['fail']:
+        return res
+    rows1 = res['calls'][0][3]
+    if inplace:
+        if not torch.equal(x.tensor(), y.tensor()):
+            res['fail'] = (KEY_INPL, '%s did not overwrite its %s input with the result' % (call, lay))
+            return res
+        if not torch.equal(outside(buf, vf), outside(buf0, vf)):
+            res['fail'] = (KEY_MUT, '%s on a view (%s) wrote outside the view' % (call, lay))
+            return res
+    else:
+        if not torch.equal(x.tensor(), x0) or not torch.equal(buf, buf0):
+            res['fail'] = (KEY_MUT, '%s changed its %s input' % (call, lay))
+            return res
+        ysave = y.tensor().clone()
+        x.tensor().add_(3)
+        if not torch.equal(y.tensor(), ysave):
+            res['fail'] = (KEY_ALIAS, 'y = %s; writing to x afterwards changed y: the result shares memory with the input' % call)
+            return res
+        x.tensor().copy_(x0)
+    # ---- the result object is scanned in place (another dimension when there is one)
+    if c.get('then'):
+        fn2, dim2, left2 = c['then']
+        k2 = dim2 if dim2 >= 0 else dim2 + len(bshape) + 1
+        what = 'y = %s; %s(y, %d, left=%s)' % (call, fn2, dim2, left2)
+        try:
+            y2 = lie_call(pp, y, fn2, 'function', dim2, left2, mulop)
+        except Exception as e:
+            res['calls'].append((k2, left2, rows1, None))
+            res['fail'] = (KEY_FOLD, '%s raises %s: %s' % (what, type(e).__name__, str(e)[:200]))
+            return res
+        res['fail'] = judged(y2, rows1, k2, left2, what)
+        if res['fail']:
+            return res
+        if not torch.equal(y.tensor(), y2.tensor()):
+            res['fail'] = (KEY_INPL, '%s did not overwrite y with the result' % what)
+            return res
+        if not inplace and not torch.equal(x.tensor(), x0):
+            res['fail'] = (KEY_ALIAS, '%s overwrote x: the result of the out-of-place call is (a view of) its input' % what)
+            return res
+        if not torch.equal(outside(buf, vf), outside(buf0, vf)):
+            res['fail'] = (KEY_MUT, '%s wrote outside the view x (%s)' % (what, lay))
+            return res
+    if inplace:
+        return res
+    y.tensor().fill_(0.25)
+    if not torch.equal(x.tensor(), x0):
+        res['fail'] = (KEY_ALIAS, 'y = %s; writing to y changed x: the result shares memory with the input' % call)
+        return res
+    # ---- the input is modified in place (items reversed along the dimension) and the call repeated on the object
+    x.tensor().copy_(x0.flip(k))
+    rows3 = frows(x0.flip(k), w)
+    what = '%s; x.copy_(x.flip(%d)); the same call again' % (call, k)
+    try:
+        y3 = lie_call(pp, x, fn, form, dim, left, mulop)
+    except Exception as e:
+        res['fail'] = (KEY_HIST, '%s raises %s: %s' % (what, type(e).__name__, str(e)[:200]))
+        return res
+    ncalls = len(res['calls'])
+    f3 = judged(y3, rows3, k, left, what)
+    del res['calls'][ncalls:]
+    if f3:
+        res['fail'] = (KEY_HIST, f3[1])
+    return res
+
+
+def lie_cases(ctx, pp, torch, direct):
+    import os
+    if not os.path.exists(os.path.join(COQ, 'Model', 'LieGroup.v')):
+        ctx.notes.append('LieTensor variants skipped: Model/LieGroup.v absent')
+        return [], ''
+    rng = ctx.rng
+    meta, cs = [], []
+    LTS = ['SO3', 'SE3', 'RxSO3', 'Sim3']
+    plan = []
+    # (a) one batch dimension: every (type, call form, function, order), dim 0 by both of its indices
+    for n, (lt, form, fn, left) in enumerate(itertools.product(LTS, ['function', 'method', 'method-positional'],
+                                                                ['cumprod', 'cummul', 'cumprod_', 'cummul_'], [True, False])):
+        L = [2, 3, 5, 6, 7, 11][n % 6]
+        plan.append((lt, form, fn, left, (L,), 0 if (n // 6) % 2 == 0 else -2, 'C'))
+    # (b) every (function incl. cumops, call form, batch rank 1..3, sign of the dim index); group type, order, shape
+    #     (with extents 1), batch dimension and memory layout drawn per case
+    SHR = {1: [(1,), (2,), (4,), (6,)], 2: [(3, 4), (1, 6), (4, 1), (5, 2), (2, 2)], 3: [(2, 3, 2), (2, 1, 3), (1, 1, 4), (3, 2, 2), (1, 3, 1)]}
+    for fn, form, r, neg in itertools.product(LIE_FNS, LIE_FORMS, [1, 2, 3], [False, True]):
+        bsh = rng.choice(SHR[r])
+        k = rng.randrange(r)
+        plan.append((rng.choice(LTS), form, fn, rng.random() < 0.5, bsh, k - r - 1 if neg else k, rng.choice('CTSP')))
+    # (c) random
+    for _ in range(ctx.scale(24, 600)):
+        r = rng.choice([1, 1, 2, 3])
+        if r == 1:
+            bsh = (rng.choice([1, 2, 3, 4, 5, 6, 7, 9, 10, 13]),)
+        else:
+            bsh = tuple(rng.choice([1, 2, 3, 4, 5]) for _ in range(r))
+        k = rng.randrange(r)
+        plan.append((rng.choice(LTS), rng.choice(LIE_FORMS), rng.choice(LIE_FNS), rng.random() < 0.5, bsh,
+                     k if rng.random() < 0.5 else k - r - 1, rng.choice('CCTSP')))
+    for (lt, form, fn, left, bsh, dim, layout) in plan:
+        r = len(bsh)
+        k = dim if dim >= 0 else dim + r + 1
+        if form in ('default', 'method-default') and not fn.startswith('cumops'):
+            left = True                                  # the documented default order
+        items = lie_rows(rng, lt, bsh, k)
+        k2 = (k + 1 + rng.randrange(max(r - 1, 1))) % r      # another batch dimension when there is one
+        then = [rng.choice(['cumprod_', 'cummul_', 'cumops_']), k2 if rng.random() < 0.5 else k2 - r - 1, rng.random() < 0.5]
+        c = dict(kind='lie', ltype=lt, L=bsh[k], left=left, fn=fn, form=form, items=items, bshape=list(bsh), dim=dim,
+                 layout=layout, mulop=rng.choice('@*'), then=then)
+        ex = lie_exec(pp, torch, c)
+        if ex['fail']:
+            direct.append((ex['fail'], c))
+        ctx.case(('lie', lt, tuple(bsh), dim, left, fn, form, tuple(map(tuple, items))), nontrivial=bsh[k] >= 2, branch='lie-' + lt)
+        ctx.count('lie-rank%d-%s-dim' % (r + 1, 'neg' if dim < 0 else 'pos'))
+        ctx.count('lie-form-' + form)
+        meta.append(c)
+        for ncall, (kk, lf, rin, rout) in enumerate(ex['calls']):
+            if ncall and len(meta) % 3 and isinstance(rout, list):
+                continue        # the second call of the history is judged by the exact products; tied for every third case
+            fl = fibres(bsh, kk)
+            for nf, fib in enumerate(fl):
+                lit_in = coq_list(qlist(rin[f]) for f in fib)
+                if rout is None:
+                    lit_out = 'None'
+                elif rout == 'shape':
+                    lit_out = 'Some []'
+                else:
+                    lit_out = 'Some ' + coq_list(qlist(rout[f]) for f in fib)
+                cs.append('(%d%%nat, %d%%nat, %s, %s, %s)' % (len(meta) - 1, GID[lt], 'true' if lf else 'false', lit_in, lit_out))
+                if not isinstance(rout, list):
+                    break
+    if meta and len(ctx.samples) < 6:
+        ctx.samples.append(meta[9] if len(meta) > 9 else meta[0])
+        ctx.samples.append(meta[100] if len(meta) > 100 else meta[-1])
+    body = ('From PV Require Import Base.Num Model.Cumops Model.LieGroup Model.CumLie.\nFrom Coq Require Import List ZArith QArith Bool. Import ListNotations.\n'
+            'Eval vm_compute in lie_cum_bad %s.\n' % coq_list(cs))
+    return meta, body
 
 
 def run(ctx):
@@ -97,18 +602,17 @@ def run(ctx):
     ctx.rule = RULE
     rng = ctx.rng
     maxL = 4096
+    direct = []      # ((key, text), case): failures of the property's own statement found while executing the cases
     # ---------------------------------------------------------------- (1) every L, 1-d, cumops
     impl_fail = {}   # L -> deviation list / None
     for L in range(1, maxL + 1):
-        x, base = seg_tensor(torch, (L,), 0)
-        x0 = x.clone()
-        try:
-            y = pp.cumops(x, 0, seg_ops(torch))
-            d = deviations(y, base, 0)[0][1]
-            if not torch.equal(x, x0):
-                ctx.violation('cumops-mutates-input', 'pp.cumops changed its input', dict(kind='plain', L=L, shape=[L], dim=0, variant='cumops', order='right'))
-        except Exception as e:  # noqa
-            d = None
+        # dimension 0 by either index; the full history (result scanned in place, input modified and call repeated)
+        # for the short lengths and a sample of the long ones, the aliasing / mutation checks for every length
+        c = dict(kind='plain', L=L, shape=[L], dim=0 if L % 2 else -2, variant='cumops', order='right')
+        ex = plain_exec(pp, torch, c, history=(L <= 40 or L % 128 in (0, 1, 127)))
+        if ex['fail']:
+            direct.append((ex['fail'], c))
+        d = ex['devs'][0][1] if ex['devs'] is not None else None
         ctx.case(('plain1d', L), nontrivial=L >= 2, branch='plain-1d')
         if d != []:
             impl_fail[L] = d
@@ -131,35 +635,37 @@ def run(ctx):
     cases = []
     meta = []
     shapes = []
-    directed = [(1,), (2,), (3,), (5, 1), (1, 5), (3, 4), (2, 3, 4), (7, 2, 1), (2, 3, 2, 5), (1, 1, 1, 9), (6, 0), (0, 6)]
+    directed = [(1,), (2,), (3,), (5, 1), (1, 5), (3, 4), (2, 3, 4), (7, 2, 1), (2, 3, 2, 5), (1, 1, 1, 9), (6, 0), (0, 6),
+                (1, 1), (1, 4, 1), (4, 1, 3), (1, 2, 1, 3)]
     for sh in directed:
         shapes.append(sh)
     while len(shapes) < nshape:
         r = rng.randint(1, 4)
         shapes.append(tuple(rng.choice([1, 2, 3, 5, 6, 7, 9, 12, 17, 31, 33]) if rng.random() < 0.8 else rng.randint(1, 70) for _ in range(r)))
-    for sh in shapes:
+    for ns, sh in enumerate(shapes):
         for dim in range(len(sh)):
             if sh[dim] == 0:
                 continue
             for variant in ('cumops', 'cumops_'):
                 order = rng.choice(['right', 'left'])
                 usedim = dim if rng.random() < 0.5 else dim - len(sh) - 1   # negative dims count from the pair axis
-                x, base = seg_tensor(torch, sh, dim, order == 'left')
-                layout = rng.choice(['C', 'C', 'T', 'S'])
-                x = relayout(torch, x, layout)
-                x0 = x.clone()
-                try:
-                    fn = pp.cumops if variant == 'cumops' else pp.cumops_
-                    y = fn(x, usedim, seg_ops(torch, order))
-                    devs = deviations(y, base, dim, order == 'left')
-                    same_in = torch.equal(x, x0)
-                    same_res = torch.equal(x, y)
-                except Exception as e:  # noqa
-                    devs, same_in, same_res = None, None, None
+                if ns < len(directed):
+                    layout = 'CTSPE'[(ns + dim + (variant == 'cumops')) % 5]
+                else:
+                    layout = rng.choice(['C', 'C', 'T', 'S', 'P', 'E'])
+                c = dict(kind='plain', variant=variant, shape=list(sh), dim=usedim, order=order, L=sh[dim], layout=layout)
+                if layout == 'E':
+                    if variant == 'cumops' and len(sh) >= 2:
+                        c['edim'] = (dim + 1 + rng.randrange(len(sh) - 1)) % len(sh)
+                    else:
+                        c['layout'] = 'C'     # writing through an expanded view is not defined
+                ex = plain_exec(pp, torch, c)
+                if ex['fail']:
+                    direct.append((ex['fail'], c))
                 ctx.case((variant, sh, dim, order), nontrivial=sh[dim] >= 2, branch='%s-rank%d' % (variant, len(sh)))
-                L = sh[dim]
-                meta.append(dict(kind='plain', variant=variant, shape=list(sh), dim=usedim, order=order, L=L, layout=layout))
-                cases.append((len(meta) - 1, L, devs, same_in, same_res, variant == 'cumops_', order == 'left'))
+                ctx.count('plain-layout-' + c['layout'])
+                meta.append(c)
+                cases.append((len(meta) - 1, sh[dim], ex['devs'], ex['same_in'], ex['same_res'], variant == 'cumops_', order == 'left'))
     body = 'From PV Require Import Model.Cumops.\nFrom Coq Require Import List ZArith Bool. Import ListNotations.\n'
     segcases, memcases = [], []
     for (i, L, devs, same_in, same_res, inplace, left) in cases:
@@ -186,9 +692,11 @@ def run(ctx):
     if len(ctx.samples) < 6 and meta:
         ctx.samples.append(dict(meta[min(len(meta) - 1, 17)], note='items along dim are [base+i,base+i]; other dims index independent fibres'))
     # ---------------------------------------------------------------- (3) LieTensor variants (exact group elements)
-    lie_meta, lie_body = lie_cases(ctx, pp, torch)
+    lie_meta, lie_body = lie_cases(ctx, pp, torch, direct)
     if lie_body:
         files.append(('lie', lie_body))
+    # ---------------------------------------------------------------- (4) plain tensors of matrices through cumprod / cummul
+    mat_cases(ctx, pp, torch, direct)
     # ---------------------------------------------------------------- run Coq, collect
     res = run_case_files('C12', files, timeout=1200)
     for name, (rc, out) in sorted(res.items()):
@@ -199,12 +707,12 @@ def run(ctx):
             continue
         if name.startswith('range_'):
             for L in parse_nat_list(ev[0]) + parse_nat_list(ev[1]):
-                ctx.mismatch('plain-1d', dict(kind='plain', variant='cumops', shape=[L], dim=0, order='right', L=L))
+                ctx.mismatch('plain-1d', dict(kind='plain', variant='cumops', shape=[L], dim=0 if L % 2 else -2, order='right', L=L))
         elif name == 'shapes':
             for i in sorted(set(parse_nat_list(ev[0]) + parse_nat_list(ev[1]))):
                 ctx.mismatch('plain-shapes', meta[i])
         else:
-            for i in parse_nat_list(ev[0]):
+            for i in sorted(set(parse_nat_list(ev[0]))):
                 ctx.mismatch('lie', lie_meta[i])
     ctx.traces = ctx.evaluations
     ctx.exhaustive = True
@@ -215,144 +723,121 @@ def run(ctx):
         bad = replay(ctx, c)
         if bad:
             m['explained'] = True
-            ctx.violation('cumops-differs-from-fold', 'result differs from the sequential fold (or the call raises): %s' % bad, c)
+            ctx.violation(replay_key(ctx, c) or KEY_FOLD, 'result differs from the sequential fold (or the call raises): %s' % bad, c)
         else:
             # look around: neighbouring lengths
             for L2 in sorted({max(1, c['L'] + d) for d in (-2, -1, 1, 2, 3)}):
-                c2 = dict(c, L=L2, shape=[L2] if c['kind'] == 'plain' else c.get('shape'))
                 if c['kind'] == 'plain':
-                    c2['dim'] = 0
+                    c2 = dict(c, L=L2, shape=[L2], dim=0, layout='C')
+                else:
+                    c2 = dict(c, L=L2, bshape=[L2], dim=0, items=lie_items(rng, c['ltype'], L2), then=None, layout='C')
                 b2 = replay(ctx, c2)
                 if b2:
                     m['explained'] = True
-                    ctx.violation('cumops-differs-from-fold', 'result differs from the sequential fold: %s' % b2, c2)
+                    ctx.violation(KEY_FOLD, 'result differs from the sequential fold: %s' % b2, c2)
                     break
+    # failures of the property's own statement that the tie does not see (histories, aliasing, writes outside views)
+    shown = {}
+    for (key, text), c in direct:
+        if shown.get(key, 0) < 3:
+            shown[key] = shown.get(key, 0) + 1
+            ctx.violation(key, text, c)
 
 
-# ------------------------------------------------------------------------------------------------
-Q8 = [(0, 0, 0, 1), (1, 0, 0, 0), (0, 1, 0, 0), (0, 0, 1, 0), (0, 0, 0, -1), (-1, 0, 0, 0), (0, -1, 0, 0), (0, 0, -1, 0)]
-
-
-def lie_items(rng, ltype, n):
-    items = []
-    for idx in range(n):
-        q = list(rng.choice(Q8))
-        if n >= 2 and idx < 2:
-            q = list([(1, 0, 0, 0), (0, 1, 0, 0)][idx])  # i and j do not commute: the order is observable
-        t = [rng.randint(-3, 3) for _ in range(3)]
-        s = [rng.choice([0.5, 1.0, 2.0])]
-        if ltype == 'SO3':
-            items.append(q)
-        elif ltype == 'SE3':
-            items.append(t + q)
-        elif ltype == 'RxSO3':
-            items.append(q + s)
-        else:
-            items.append(t + q + s)
-    return items
-
-
-def lie_cases(ctx, pp, torch):
-    import os
-    if not os.path.exists(os.path.join(COQ, 'Model', 'LieGroup.v')):
-        ctx.notes.append('LieTensor variants skipped: Model/LieGroup.v absent')
-        return [], ''
+def mat_cases(ctx, pp, torch, direct):
+    """pp.cumprod / cummul (and in-place variants) on plain tensors of 2x2 integer matrices: '@' is the free
+    monoid on A = [[1,1],[0,1]], B = [[1,0],[1,1]] (order observable, exact), '*' the element-wise product"""
     rng = ctx.rng
-    meta, cs = [], []
-    directed = list(itertools.product(['SO3', 'SE3', 'RxSO3', 'Sim3'], ['function', 'method', 'method-positional'],
-                                      ['cumprod', 'cummul', 'cumprod_', 'cummul_'], [True, False]))
-    n = len(directed) + ctx.scale(24, 600)
-    for k in range(n):
-        if k < len(directed):
-            lt, form, fn, left = directed[k]
-            L = [2, 3, 5, 6, 7, 11][k % 6]
-        else:
-            lt = rng.choice(['SO3', 'SE3', 'RxSO3', 'Sim3'])
-            form = rng.choice(['function', 'method', 'method-positional'])
-            fn = rng.choice(['cumprod', 'cummul', 'cumprod_', 'cummul_'])
-            left = rng.random() < 0.5
-            L = rng.choice([1, 2, 3, 4, 5, 6, 7, 9, 10, 13])
-        items = lie_items(rng, lt, L)
-        x = pp.LieTensor(torch.tensor(items, dtype=torch.float64), ltype=getattr(pp, lt + '_type'))
-        x0 = x.tensor().clone()
-        try:
-            if form == 'function':
-                y = getattr(pp, fn)(x, 0, left=left)
-            elif form == 'method':
-                y = getattr(x, fn)(dim=0, left=left)
-            else:
-                y = getattr(x, fn)(0, left)
-            out = [[Fraction(v) for v in row] for row in y.tensor().tolist()]
-            if fn.endswith('_') and not torch.equal(x.tensor(), y.tensor()):
-                ctx.violation('cum-inplace-not-overwritten', '%s (%s form) did not overwrite its input with the result' % (fn, form), dict(kind='lie', ltype=lt, L=L, left=left, fn=fn, form=form, items=items))
-            if not fn.endswith('_') and not torch.equal(x.tensor(), x0):
-                ctx.violation('cum-mutates-input', '%s (%s form) changed its input' % (fn, form), dict(kind='lie', ltype=lt, L=L, left=left, fn=fn, form=form, items=items))
-        except Exception:
-            out = None
-        ctx.case(('lie', lt, L, left, fn, tuple(map(tuple, items))), nontrivial=L >= 2, branch='lie-' + lt)
-        meta.append(dict(kind='lie', ltype=lt, L=L, left=left, fn=fn, form=form, items=items))
-        gid = {'SO3': 0, 'SE3': 1, 'RxSO3': 2, 'Sim3': 3}[lt]
-        lit_in = coq_list(qlist(r) for r in items)
-        lit_out = 'None' if out is None else 'Some ' + coq_list(qlist(r) for r in out)
-        cs.append('(%d%%nat, %d%%nat, %s, %s, %s)' % (len(meta) - 1, gid, 'true' if left else 'false', lit_in, lit_out))
-    if meta and len(ctx.samples) < 6:
-        ctx.samples.append(meta[9] if len(meta) > 9 else meta[0])
-    body = ('From PV Require Import Base.Num Model.Cumops Model.LieGroup Model.CumLie.\nFrom Coq Require Import List ZArith QArith Bool. Import ListNotations.\n'
-            'Eval vm_compute in lie_cum_bad %s.\n' % coq_list(cs))
-    return meta, body
+    SH = [(1,), (2,), (7,), (3, 4), (1, 5), (5, 1), (2, 3, 4), (2, 1, 3), (19,), (4, 6)]
+    n = 0
+    for fn, left in itertools.product(['cumprod', 'cumprod_', 'cummul', 'cummul_'], [True, False]):
+        for rep in range(ctx.scale(2, 12)):
+            bsh = SH[n % len(SH)]
+            n += 1
+            for k in range(len(bsh)):
+                dim = k if (n + k + rep) % 2 else k - len(bsh) - 2
+                c = dict(kind='plainmat', fn=fn, left=left, bshape=list(bsh), dim=dim, L=bsh[k],
+                         gens=[rng.randrange(2) for _ in range(int(torch.tensor(bsh).prod()))], layout='CSP'[(n + k) % 3])
+                f = mat_exec(pp, torch, c)
+                if f:
+                    direct.append((f, c))
+                ctx.case(('plainmat', fn, left, tuple(bsh), dim, tuple(c['gens'])), nontrivial=bsh[k] >= 2, branch='plain-matrices-' + fn)
 
 
-def replay(ctx, c):
-    """run one case on the implementation against the sequential fold; returns a description of the
-    failure or None"""
+def mat_exec(pp, torch, c):
+    try:
+        return mat_exec_(pp, torch, c)
+    except Exception as e:
+        return (KEY_HIST, 'a step of the history around pp.%s(tensor%s of 2x2 matrices, dim=%d) raises %s: %s'
+                % (c['fn'], c['bshape'], c['dim'], type(e).__name__, str(e)[:200]))
+
+
+def mat_exec_(pp, torch, c):
+    import math
+    fn, left, bsh, dim = c['fn'], c['left'], tuple(c['bshape']), c['dim']
+    r = len(bsh)
+    k = dim if dim >= 0 else dim + r + 2
+    G = [[1, 1, 0, 1], [1, 0, 1, 1]]
+    if fn.startswith('cummul'):
+        G = [[2, 3, 1, -1], [1, -2, 3, 1]]
+    rows = [G[g] for g in c['gens']]
+    if fn.startswith('cumprod'):
+        op = lambda a, b: [a[0] * b[0] + a[1] * b[2], a[0] * b[1] + a[1] * b[3], a[2] * b[0] + a[3] * b[2], a[2] * b[1] + a[3] * b[3]]
+    else:
+        op = lambda a, b: [a[i] * b[i] for i in range(4)]
+    inner = int(math.prod(bsh[k + 1:]))
+    exp = list(rows)
+    for f in range(len(rows)):
+        if (f // inner) % bsh[k] > 0:
+            exp[f] = op(rows[f], exp[f - inner]) if left else op(exp[f - inner], rows[f])
+    t = torch.tensor(rows, dtype=torch.float64).reshape(bsh + (2, 2))
+    # relayout treats the last axis as the item: fold the matrix into one axis of 4 for the layout, view as 2x2
+    view, buf, vf0 = relayout(torch, t.reshape(bsh + (4,)), c.get('layout', 'C'))
+    vf = lambda b: vf0(b).unflatten(-1, (2, 2))
+    x = vf(buf)
+    x0, buf0 = x.clone(), buf.clone()
+    call = 'pp.%s(tensor%s of 2x2 matrices, dim=%d, left=%s)' % (fn, list(bsh), dim, left)
+    try:
+        y = getattr(pp, fn)(x, dim, left=left)
+    except Exception as e:
+        return (KEY_FOLD, '%s raises %s: %s' % (call, type(e).__name__, str(e)[:200]))
+    if tuple(y.shape) != bsh + (2, 2):
+        return (KEY_FOLD, '%s has shape %s' % (call, list(y.shape)))
+    got = [[int(v) for v in row] for row in y.reshape(-1, 4).tolist()]
+    for f in range(len(rows)):
+        if got[f] != exp[f]:
+            return (KEY_FOLD, '%s: flat batch position %d is %s, ordered product %s' % (call, f, got[f], exp[f]))
+    if fn.endswith('_'):
+        if not torch.equal(x, y):
+            return (KEY_INPL, '%s did not overwrite its input' % call)
+        if not torch.equal(outside(buf, vf0), outside(buf0, vf0)):
+            return (KEY_MUT, '%s on a view wrote outside the view' % call)
+        return None
+    if not torch.equal(x, x0) or not torch.equal(buf, buf0):
+        return (KEY_MUT, '%s changed its input' % call)
+    y.fill_(5)
+    if not torch.equal(x, x0):
+        return (KEY_ALIAS, 'y = %s; y.fill_(5) changed x: the result shares memory with the input' % call)
+    return None
+
+
+def replay_key(ctx, c):
+    f = execute(c)
+    return f[0] if f else None
+
+
+def execute(c):
     pp = import_pypose()
     import torch
     if c['kind'] == 'plain':
-        sh = tuple(c['shape'])
-        dim = c['dim']
-        pdim = dim if dim >= 0 else dim + len(sh) + 1
-        left = c.get('order', 'right') == 'left'
-        x, base = seg_tensor(torch, sh, pdim, left)
-        fn = getattr(pp, c.get('variant', 'cumops'))
-        xin = relayout(torch, x, c.get('layout', 'C'))
-        x0 = xin.clone()
-        try:
-            y = fn(xin, dim, seg_ops(torch, c.get('order', 'right')))
-        except Exception as e:
-            return 'raises %s: %s' % (type(e).__name__, str(e)[:200])
-        try:
-            devs = deviations(y, base, pdim, left)
-        except ShapeError as e:
-            return str(e)
-        bad = [(b, d[:3]) for b, d in devs if d]
-        if bad:
-            return 'positions differing from the fold (fibre base, [(i, first, last)]): %s' % bad[:2]
-        lay = {'C': 'contiguous', 'T': 'non-contiguous (permuted view)', 'S': 'strided slice of a larger buffer'}[c.get('layout', 'C')]
-        if c.get('variant', 'cumops').endswith('_') and y.numel() and not torch.equal(xin, y):
-            return 'the in-place variant returned the fold but did not overwrite its %s input with it' % lay
-        if not c.get('variant', 'cumops').endswith('_') and not torch.equal(xin, x0):
-            return 'the out-of-place variant changed its %s input' % lay
-        return None
-    else:
-        lt, left = c['ltype'], c['left']
-        x = pp.LieTensor(torch.tensor(c['items'], dtype=torch.float64), ltype=getattr(pp, lt + '_type'))
-        try:
-            form = c.get('form', 'function')
-            xc = x.clone()
-            if form == 'function':
-                y = getattr(pp, c['fn'])(xc, 0, left=left)
-            elif form == 'method':
-                y = getattr(xc, c['fn'])(dim=0, left=left)
-            else:
-                y = getattr(xc, c['fn'])(0, left)
-        except Exception as e:
-            return 'raises %s: %s' % (type(e).__name__, str(e)[:200])
-        acc, exp = None, []
-        for i in range(len(c['items'])):
-            xi = x[i]
-            acc = xi if acc is None else ((xi @ acc) if left else (acc @ xi))
-            exp.append(acc.tensor())
-        exp = torch.stack(exp)
-        if not torch.equal(exp, y.tensor()):
-            return 'LieTensor %s(left=%s) differs from the sequential product' % (c['fn'], left)
-        return None
+        return plain_exec(pp, torch, c)['fail']
+    if c['kind'] == 'plainmat':
+        return mat_exec(pp, torch, c)
+    return lie_exec(pp, torch, c)['fail']
+
+
+def replay(ctx, c):
+    """run one case (a short history) on the implementation against the sequential fold and the memory clause;
+    returns a description of the failure or None"""
+    f = execute(c)
+    return f[1] if f else None
